@@ -28,6 +28,15 @@ def run(ctx):
         ctx, so.c01, ['sched', 'mixed'], nontrivial,
         witnesses=['release-while-ancestor-inflight'],
         rule='random acyclic engines (chains, diamonds, fan-out, analyses below tasks) x random histories biased to "request while executing" and "failure arrives last"; corpus of directed scenarios first. Non-trivial = a unit was released whose ancestor had work on the same target or the all-targets marker earlier in the same history (the filter decided something)')
+    # histories in which the database refuses a run id during a dispatch
+    # (Model/SchedFault.v: C01_release_faults / C01_doing_faults_partial /
+    # C01_doing_faults_refuted): correspondence + the C01 oracle; a kept job
+    # sent while an ancestor was requested in between is the open finding
+    # kept-job-sent-while-ancestor-pending
+    if not ctx.replay and not ctx.nviol:
+        sc.fault_study(ctx, so.c01)
+        ctx.expect_known('kept-job-sent-while-ancestor-pending',
+                         any(k.startswith('kept-job-sent-while-ancestor-pending') for k in ctx.known_hits))
 
 
 def replay(ctx, obj):
